@@ -16,11 +16,11 @@ CHECKS = {
     "C02": dict(
         technique="TLA+ refinement-loop spec (SolveLoop) model-checked; behaviours replayed through an adversarial policy backend; traces judged by TLC",
         text="SolveLoop.tla models Solver.solve's refute/re-solve/demote loop with a nondeterministic correct backend; TLC proves Exact/DemotionSound/Progress/termination for every model set over a 3-variable universe, every key subset and every backend choice sequence (34 744 behaviours). Each behaviour drives the real Solver.solve through a policy backend that answers correctly for the clauses it actually receives; the recorded conversation and final ret/sol are judged by TLC (Trace_SolveLoop). In addition z3 sessions with solve() are judged by Trace_Session (facts from all models of the driver's meaning).",
-        note="trusted: TLC, CspSem!Eval, the policy backend (its answers are re-checked by TLC per run); native-deduction replies are covered in C03; 3-variable universe exhaustive, 4-variable sampled (thorough)",
+        note="trusted: TLC, CspSem!Eval, the policy backend (its answers are re-checked by TLC per run), the stand-in native solver and the scripted sugar conversation (collaborators that answer from the exported program); all three routes (z3, sugar executable, native deduction) are run; 3-variable universe exhaustive, 4-variable sampled (thorough); large programs judged by witness",
         ref="DESIGN.md 5 C02"),
     "C04": dict(
         technique="TLC enumerates graphs x patterns with the definitional verdict (GraphDefs); replay into real helper + z3; emitted native program judged by TLC (Trace_Emit)",
-        text="Every labelled graph on <=4 vertices, a catalogue to 8 vertices and grids to 3x4: ALL 2^n activity patterns, acyclic on/off, is_active as variables / negated / compound / constants / arrays. Verdict of the real encoding (z3) must equal Connected/IsTree computed by TLC; the native-primitive program is exported and decided by TLC for every pattern. Small-scope exhaustive.",
+        text="Every labelled graph on <=4 vertices, a catalogue to 8 vertices and grids to 3x4: ALL 2^n activity patterns, acyclic on/off, is_active as variables / negated / compound / constants / arrays, edges written and added in several orders, one Graph object per job. Verdict of the real encoding (z3) must equal Connected/IsTree computed by TLC; the native-primitive program is exported and decided by TLC for every pattern. Small-scope exhaustive, plus scale-up objects (300-cell line, 17x17 board) with hand-shaped patterns judged by Trace_Patterns.",
         note="trusted: GraphDefs.tla definitions, TLC, z3 as the solving path for the auxiliary-variable encoding; native operator meaning = CspSem!EvalGraphConn (no native solver offline)",
         ref="DESIGN.md 5 C04"),
     "C05": dict(
@@ -50,7 +50,7 @@ CHECKS = {
         ref="DESIGN.md 5 C09"),
     "C10": dict(
         technique="TLC enumerates segment subsets with the strand definition (Crossable/Passed/Cross); replay + z3 through solve(); native program judged by TLC",
-        text="Frames up to 2x2 (4096 subsets) and 1x3/3x1, single_cycle on/off, both encodings, both returned arrays compared with the definition in every satisfying assignment.",
+        text="Frames up to 2x2 (4096 subsets) and 1x3/3x1 exhaustively, single_cycle on/off, both encodings, both returned arrays compared with the definition in every satisfying assignment; rectangle drawings, weaves and stray segments on 2x3 .. 4x4 frames and a 6x7 scale-up frame judged by TLC on listed patterns (Trace_Patterns, Trace_Emit plist); segments given as variables, constants or a mixture.",
         note="as C04",
         ref="DESIGN.md 5 C10"),
     "C03": dict(
